@@ -1,5 +1,6 @@
 (* C08 — Clone is a deep copy that shares no mutable container with its source. *)
 From Anytype Require Import Base FloatBits Value Equality Heap HeapProofs CloneProofs CloneHistory.
+From Anytype Require Import Acyclic.
 From Anytype Require Import HeapExt HeapExtProofs CloneHistory Reachable.
 Local Open Scope nat_scope.
 
@@ -89,6 +90,20 @@ Proof. intros fadd fmul fdiv of_int prog OK. exact (reachable_clone_independent_
 Theorem C08_literal_container_ids_excluded : ~ state_wf (fst (step_core init_state (NewList [Lit (HL 7%nat)]))).
 Proof. exact lit_injection_breaks_wf. Qed.
 
+
+(* "acyclic" is not an assumption about the library either: a program keeps every container acyclic as long as no step stores a
+   container into something reachable from it ([stores_okb], decidable, evaluated by the correspondence runner on every step of
+   every program it executes, together with [xop_okb]: [run_okb]). In every state such a program reaches, the heap is well-formed,
+   no container reaches itself, and every variable reads as a finite tree with fuel |heap|+1 *)
+Theorem C08_every_reachable_state_is_acyclic : forall (fadd fmul fdiv : Z -> Z -> Z) (of_int : Z -> Z) prog,
+  run_okb fadd fmul fdiv of_int init_state prog = true ->
+  let s := xexec fadd fmul fdiv of_int init_state prog in
+  state_wf s /\ heap_acyclic (st_heap s) /\ forall v, In v (st_env s) -> reify (S (length (st_heap s))) (st_heap s) v <> None.
+Proof. exact reachable_acyclic. Qed.
+(* the discipline is needed: storing a list into itself is rejected by it, and the resulting heap is cyclic *)
+Theorem C08_storing_discipline_needed : run_okb (fun _ _ => 0%Z) (fun _ _ => 0%Z) (fun _ _ => 0%Z) (fun _ => 0%Z) init_state [Base (NewList []); Base (LAdd 0 [Reg 0])] = false.
+Proof. vm_compute. reflexivity. Qed.
+
 Print Assumptions C08_total.
 Print Assumptions C08_equal.
 Print Assumptions C08_equals.
@@ -103,3 +118,5 @@ Print Assumptions C08_every_reachable_state_is_well_formed.
 Print Assumptions C08_reachable_clone_shares_nothing.
 Print Assumptions C08_reachable_clone_history_independent.
 Print Assumptions C08_literal_container_ids_excluded.
+Print Assumptions C08_every_reachable_state_is_acyclic.
+Print Assumptions C08_storing_discipline_needed.
